@@ -127,6 +127,13 @@ void harness(void) {
 		}
 	}
 	VASSERT(cap_n == k, "no feature setting goes to a disconnected board or to any other node");
+	/* the same settings must go out again after EVERY reset: the configured values are not altered by what the boards answer */
+	for (int b = 0; b < 2; b++)
+		for (int i = 0; i < (b == 0 ? 2 : 1); i++) {
+			t_bidib_board_feature *cf = &g_array_index(bd[b]->features, t_bidib_board_feature, i);
+			VASSERT(bd[b]->features->len == (b == 0 ? 2u : 1u) && cf->number == f[b == 0 ? i : 2].number && cf->value == f[b == 0 ? i : 2].value,
+			        "configured feature settings unchanged by the dialogue (next reset sends the same)");
+		}
 	VASSERT(answered == cap_n, "one answer consumed per setting (whatever value the board reports back)");
 	VASSERT(verif_all_free(), "locks released");
 	VWITNESS();
